@@ -616,7 +616,15 @@ class Folder:
                         raise Raised(type(ex).__name__, e)  # what the evaluated program would see
                     except LookupError as ex:
                         raise Unfoldable("%s: %s" % (unparse(e), ex))
-        if e.keywords and name not in ("int", "itertools.product", "sorted", "max", "min") and not (isinstance(e.func, ast.Name) and isinstance(self.env.get(e.func.id), Abstract)) and not (isinstance(e.func, ast.Attribute) and dotted(e.func) and dotted(e.func).split(".")[0] in self.env):
+        repo_callee = None
+        if e.keywords and self.repo is not None and self.mod is not None and isinstance(e.func, (ast.Name, ast.Attribute)) and (name or "?").split(".")[0] not in self.env:
+            try:
+                repo_callee = self.repo.resolve_expr(self.mod, e.func, self.cls)
+            except Exception:
+                repo_callee = None
+            if not isinstance(repo_callee, (FuncInfo, ClassInfo)):
+                repo_callee = None
+        if e.keywords and repo_callee is None and name not in ("int", "itertools.product", "sorted", "max", "min") and not (isinstance(e.func, ast.Name) and isinstance(self.env.get(e.func.id), Abstract)) and not (isinstance(e.func, ast.Attribute) and dotted(e.func) and dotted(e.func).split(".")[0] in self.env):
             raise Unfoldable(unparse(e))
         if isinstance(e.func, ast.Attribute) and e.func.attr == "bit_length" and not args:
             v = self.fold(e.func.value)
@@ -934,6 +942,11 @@ class Folder:
                 from .absint import FnRef
 
                 return FnRef(self.repo, r1, self.hook)(*[self.fold(a) for a in args], **{k.arg: self.fold(k.value) for k in e.keywords if k.arg})
+            if isinstance(r1, ClassInfo):
+                # a class of the repository that no rule-specific hook has claimed: the instance its constructor builds
+                from .absint import _RepoShim, construct
+
+                return construct(_RepoShim(self.repo), r1, *[self.fold(a) for a in args], hook=self.hook, **{k.arg: self.fold(k.value) for k in e.keywords if k.arg})
         if isinstance(e.func, (ast.Call, ast.Subscript, ast.IfExp)):
             # the callee is itself computed: getattr(x, name)(...), table[key](...), (f if c else g)(...)
             fv = self.fold(e.func)
